@@ -298,3 +298,86 @@ reg("C14",
          "only because +inf and -inf cancel in every block. Builder/WTML runs only on pyramids whose root has a finite value beneath it. Bounds as for C02 (T=2/4/8, depth<=3).",
     technique="TLA+/TLC model checking of the range rule under all merge orders + replay of TLC's expected ranges against headers, ImageSet and WTML of real cascaded FITS pyramids",
     design_ref="DESIGN.md 4.5, 5/C14")
+
+
+# ------------------------------------------------------------------------------------------------
+# additions after the third round of independently seeded changes (DESIGN 10) and the growth of WorkQueue.tla
+# ------------------------------------------------------------------------------------------------
+
+def more(pid, text="", note=""):
+    if text:
+        CHECKS[pid]["text"] = CHECKS[pid]["text"].rstrip() + " " + text
+    if note:
+        CHECKS[pid]["note"] = CHECKS[pid]["note"].rstrip() + " " + note
+
+
+more("C01",
+     text="Deep sparse pyramids (depth 15-19, coordinates beyond 2^12 and 2^16, pairs of branches a power of two apart in x and one step in y) are walked serially and with "
+          "three workers under several schedule policies; their expected operation sets come from TLC's sparse computation of the live set (spec/SparseLive.tla), which the "
+          "invariant SparseAgrees proves equal to LiveSet in every state of the exhaustive runs.",
+     note="Deep pyramids are sampled (seeded), not exhaustive.")
+more("C03",
+     text="WorkQueue.tla now carries the OS pipe between feeder thread and workers (PipeCap: 0 = every item larger than the pipe, 1, unbounded; the overflowing write is "
+          "visible to readers but blocks the feeder) and the polled wait for the feeder (PJoinThreadPoll, par_util.finish_checking_workers); TLC checks the same sentences for "
+          "every PipeCap, behaviours with PipeCap = 0 are replayed into the real multi_tan stage with images larger than 64 KiB, and lib/simmp.py's queue has the pipe's capacity "
+          "in bytes and helper threads started by the library.",
+     note="The pipe capacity is the Linux default of 64 KiB; message sizes are those of the pickled items.")
+more("C19",
+     text="Fault runs now include items larger than the OS pipe (multi_tan with 96 KB images; one fault, and every image failing so that all workers are dead with images still "
+          "buffered): TLC checks NeverSwallowed and Ends for PipeCap 0 / 1 with any fault set and must refute Ends for the unconditional join_thread (JoinChecked = FALSE, negative "
+          "control); that hang was present in the code and is repaired (6e53506).")
+more("C04",
+     text="Every tile obtained through single-tile construction or point lookup then lives on: it is shown to the library's own consumers of tiles (the eight footprint filters of a "
+          "chunked plate-carree sampler, toast_tile_area) and must still have the enumerated tile's corners, after which its caller overwrites it in place - which must not reach "
+          "any tile reported later. Deep positions are given as Python ints and as NumPy integers of every width that holds them.")
+more("C05",
+     text="Before its grid is asked for, each tile is shown to the library's footprint filters and area function, as in a filtered sampling run.")
+more("C12",
+     text="After every lookup the caller overwrites in place every writeable array reachable from the returned tile; later lookups must not depend on it.")
+more("C06",
+     text="Builder.toast_base is also run with a tile filter (its updating mode) in both coordinate systems, the planetary one given as coordsys= and as is_planet=True; "
+          "samplers with bands of +inf / -inf covering whole tiles must produce tiles holding those values (undefined means NaN only).")
+more("C13",
+     text="Every TOAST case is re-run in each coordinate system with the filter lifted to the tile's corners (a tile is accepted iff the centre of the corners it is shown with "
+          "is the centre of an accepted position in that coordinate system), and cases with a gap tile on the level above the leaves (plus one case in 16) are also visited with "
+          "two workers under the deterministic scheduler, the set of tiles visited compared with the spec's.",
+     note="The geometry lift takes its reference centres from create_single_tile (judged by C04).")
+more("C10",
+     text="Layer 1 also starts updaters as separate interpreters (multiprocessing spawn), each with its own environment: its own str-hash salt (PYTHONHASHSEED), scheduler "
+          "variables, working directory and relative or absolute spelling of the pyramid directory; entering order is controlled. In the thread layer the deletion of a lock file "
+          "outside the release is a scheduling point of its own, and one updater doing two updates is explored exhaustively against one updater doing one update of the same tile.",
+     note="Separately started interpreters are exercised with real processes only; in the thread layer salt- or directory-dependent lock identities show up as drift.")
+more("C09",
+     text="Pixel data of the lifted mosaics is seeded with +-inf, +-0.0 and extreme-magnitude values; tiles are compared with TLC's at bit level.")
+more("C15",
+     text="A third machine (PairSpec) covers two tile positions with two live buffers on one PyramidIO under open / fill / update / direct assignment through the handed-out "
+          "array / clear / close; TLC checks that live buffers are independent, that a missing tile always opens all-undefined and that a position is persisted from its own "
+          "buffer. The tile-file machine carries the process-level history of other ImageLoader objects configured from command-line options (every option / defaults); "
+          "read-back identity is checked in each such environment (OtherLoadersDoNotMatter).",
+     note="PIL-loaded (read-only) tiles take the set/clear steps through fill. Pure black is a defined colour value.")
+more("C20",
+     text="Every command-line subcommand that takes --hdu-index / --wcs-key is discovered from the real parsers (today `view` and `tile-multi-tan`) and run through cli.entrypoint "
+          "in-process with the tiler replaced by a recorder; the collection the command built goes through the same TLC histories as every other route. This route exposed that "
+          "tile-multi-tan without --hdu-index loaded HDU 0 instead of the first image HDU (repaired, 4ee13a7).",
+     note="`view --tunnel` (whose remote command line drops the selection options) is not exercised: it needs ssh.")
+more("C11",
+     text="The same request points re-presented in other memory layouts and dimensionalities (Fortran order, transposed / strided / reversed / sliced / broadcast views, read-only "
+          "arrays, lon and lat in different layouts, 0-d / 1-d / 3-d requests, Python floats) must give TLC's value at every point in the request's own shape.")
+more("C16",
+     text="Further TLC-generated histories cover WCS objects that record a pixel-grid size equal to, larger or smaller than the image (the flip mirrors about the image's own "
+          "height, so the recorded size must not matter) and two Images over one pixel buffer (alias and overlapping row slices, each with its own WCS; NonInterference / "
+          "BufferUntouched / PeerSkyUnchanged in Parity.tla; both real objects judged after every call).")
+more("C18",
+     text="Action StoreFail: a low-level step of the store-side write fails inside put_item; every such edge of TLC's graph is replayed as a real RLIMIT_FSIZE of 0 / half / "
+          "all-but-one byte of the item (kernel EFBIG inside a write() or at the close-time flush of the real put_item) or a failing os.replace onto the item's name; every stored "
+          "file is compared byte for byte with its source, index.wtml included when refresh skips the image.",
+     note="The file-size limit is process-wide for the duration of one put_item call (SIGXFSZ ignored meanwhile).")
+more("C08",
+     text="Directory histories: several images of one layout (fully defined / with undefined regions covering whole tiles, partial tiles, single planes) are tiled one after the "
+          "other into ONE directory and the directory must show the image tiled last after every step (theorem RetileOK, model-checked for all layouts <= 5x5 at TS = 4 plus "
+          "sub-image layouts, with the keep-stale-file variant refuted by TLC).",
+     note="The removal of an all-undefined tile's earlier file is C15's mechanism; C08 observes its end-to-end consequence (keys C08:reassembly:retile:*).")
+more("C17",
+     text="The library route Builder(PyramidIO(scheme)) is run under both naming schemes with image sizes down to a single tile and a single pixel in every study route; the "
+          "tile_fits history machine is explored to 4 calls over inputs that include a 10-level TOAST pyramid, so that directory states with two-digit level names are overridden "
+          "and reused.")
